@@ -432,6 +432,12 @@ def rule_e(ctx, ix, hub):
             n += 1
             pc = cond.path_condition(f.node, st, expand=False) or ('const', True)
             truthy = any(a == prio.id for a in cond.atoms(pc))
+            for v in ast.walk(st.value):
+                # `priority or DEFAULT`, `priority if priority else DEFAULT`: the same truth-value test inside the expression
+                if isinstance(v, ast.BoolOp) and any(isinstance(o, ast.Name) and o.id == prio.id for o in v.values[:-1]):
+                    truthy, pc = True, norm(v)
+                elif isinstance(v, ast.IfExp) and any(a == prio.id for a in cond.atoms(cond.formula(v.test))):
+                    truthy, pc = True, norm(v)
             ctx.ob(R, '%s `%s`' % (f.construct, norm(st)), 'the priority is replaced by a default only when it is None (identity), never when it is falsy', not truthy,
                    detail='Hub.subscribe replaces the priority under `%s`, a truth-value test: priority=0 is a legitimate priority (lower than '
                           'every positive one) and is silently turned into the default, so that handler is called before handlers of '
